@@ -40,14 +40,18 @@ LEVEL_TEXT = ("Lean 4 theorems about executable models of the four solvers and o
               "Models tied to the C++ by differential correspondence (Float with tolerance) plus an exact rational "
               "oracle on the implementation's answers.")
 LEVEL_NOTE = ("Theorems are about exact arithmetic; IEEE rounding, libm and the convergence of the Golub-Reinsch SVD "
-              "iteration are not proved (SVD factorisation enters as a per-run certificate). The LocalNetwork entry point is "
+              "iteration are not proved. The algebra of SVD::svd is (Props/C01/SvdDecomp.lean: every Householder / Givens "
+              "step of the transliteration Svd.decompose is an orthogonal transformation, so whenever its run returns, "
+              "A = U diag(W) V', V'V = 1, the columns of U with W != 0 are orthonormal, W >= 0); what the per-run numeric "
+              "certificate (tools/props/svd_cert.py) still stands for is that the double-precision run converges and that "
+              "the elements it treats as negligible are negligible. The LocalNetwork entry point is "
               "covered from the assembled system on (Props/C01/NetFacade.lean, stream netfacade on real LocalNetwork "
               "objects; the cofactor accessors qxx/qbb/weight_obs/stdev_obs/wcoef_res are in the model and the stream, their "
               "theorems are C03_net_cofactors, C02_same_net, C08_net_datum, Props/C09Net.lean): the assembly itself (linearisation, revision, min_x list) is C05/C14/C08's, and its outputs "
               "(distinct in-range columns per row, clusters partitioning the rows) enter the C01_net theorems as "
               "hypotheses; the repeat loop of vyrovnani_ that removes points with huge covariances is C20's.")
 TECHNIQUE = "Lean 4 proof (ordered-field algebra, induction over the factorisation loops) + model/implementation correspondence"
-MODELLED = ["IEEE rounding (proofs over exact ordered fields)", "SVD::svd iteration (certificate per run)",
+MODELLED = ["IEEE rounding (proofs over exact ordered fields)", "SVD::svd: convergence of the QR iteration and its negligibility tests under rounding (numeric certificate per run; the algebraic part is proved: C01_svd_decompose_cert)",
             "memory management of the solver objects",
             "LocalNetwork: the cluster loop of prepareProjectEquations (ind_0 += N) is written with block index/offset "
             "lookup (AdjM.locate); caching flags tst_rov_opr_/tst_vyrovnani_ (C04)"]
@@ -62,14 +66,29 @@ def harness(ctx):
                          includes=[ctx.verif / "harness"])
 
 
-def make_cases(ctx, nprob):
+def ls_quota(nprob, thorough=False):
+    """guaranteed problems on top of the historical mix: free-network Jacobians (datum defect 3 and 4, every kind of
+    tools/lib/gen_ls.py::FREE_KINDS) and two-part problems, each with PROPER regularisation subsets that resolve the defect"""
+    return {"free": max(8, nprob // 6), "parts": max(4, nprob // 12)} if thorough else {"free": 8, "parts": 4}
+
+
+def make_cases(ctx, nprob, quota=None):
     cases, meta = [], []
+    quota = ls_quota(nprob, ctx.thorough) if quota is None else quota
+    probs = []
     for k in range(nprob):
         # every third problem has a planted defect >= 2 (several kernel vectors: pivoting / mutual orthogonalisation
         # of the null-space basis only matters there)
         p = g.gen_problem(ctx.rng, family="dense", min_defect=2) if k % 3 == 2 else g.gen_problem(ctx.rng)
-        subs = [s for s in g.gen_subsets(ctx.rng, p, 2) if s[1]]
-        for S, _ok in subs[:2]:
+        probs.append((p, [s for s in g.gen_subsets(ctx.rng, p, 2) if s[1]][:2]))
+    for k in range(quota.get("free", 0)):
+        p = g.gen_problem(ctx.rng, family="free-" + g.FREE_KINDS[k % len(g.FREE_KINDS)], correlated=(k % 3 == 2))
+        probs.append((p, g.gen_proper_subsets(ctx.rng, p, 3, 0)))
+    for k in range(quota.get("parts", 0)):
+        p = g.gen_problem(ctx.rng, family="parts", correlated=(k % 3 == 2))
+        probs.append((p, g.gen_proper_subsets(ctx.rng, p, 2, 0)))
+    for p, subs in probs:
+        for S, _ok in subs:
             ref = None
             for alg in ALGS:
                 for entry in ("solver", "adj"):
@@ -151,6 +170,9 @@ def correspond(ctx, corr):
         corr.count("singular" if p["defect"] else "regular")
         if p["defect"] >= 2:
             corr.count("defect_ge2")
+        corr.count(f"cases_defect_{p['defect']}")
+        if p["defect"] >= 3 and len(S) < p["n"]:
+            corr.count("cases_defect_ge3_proper_subset")
         corr.count("correlated" if not p["unit_cov"] else "unit_cov")
         corr.count("family_" + p["family"])
         if i in crashes:
@@ -183,6 +205,9 @@ def correspond(ctx, corr):
         corr.inconclusive.append("fewer than 25% singular problems")
     if tot and corr.stats.get("defect_ge2", 0) < 0.15 * tot:
         corr.inconclusive.append("fewer than 15% problems with defect >= 2")
+    for k, need in (("cases_defect_3", 60), ("cases_defect_4", 60), ("cases_defect_ge3_proper_subset", 120)):
+        if tot and corr.stats.get(k, 0) < need:
+            corr.inconclusive.append(f"ls case mix: {k} = {corr.stats.get(k, 0)} < {need}")
 
 
 # ======================================================================================= netfacade
